@@ -4,7 +4,7 @@
    labels every edge of the state graph with the call (see harness/README.md). *)
 EXTENDS AtomContainerOps
 
-CONSTANTS MaxN, MaxD, Depth, Rich
+CONSTANTS MaxN, MaxD, Depth, Rich, FormLevel
 
 VARIABLES S, oc, out, op
 vars == <<S, oc, out, op>>
@@ -32,12 +32,71 @@ AtomIdx2(n) == IntIdx((-n)..(n-1)) \cup MaskIdx(n) \cup AllIdx
                \cup {<<"slice", <<<<1>>, <<>>, <<>>>>>>, <<"slice", <<<<>>, <<>>, <<-1>>>>>>,
                      <<"slice", <<<<-2>>, <<>>, <<>>>>>>, <<"arr", <<n - 1, 0>>>>, <<"arr", <<-1, -1>>>>}
 
+(* ---- index forms (see AtomContainerOps): which forms the call universe enumerates.
+   FormLevel 0 = the default form of every kind only (the meaning of a call does not depend on the
+   form, so the invariants of the deep S1 run need no more); 1 = the core forms; 2 = every form. *)
+IntF   == CASE FormLevel = 0 -> {"py"} [] FormLevel = 1 -> {"py", "i64", "i32", "u8", "u64", "a0"}
+            [] OTHER -> IntForms
+ArrF   == CASE FormLevel = 0 -> {"i64"} [] FormLevel = 1 -> {"list", "i64", "i32", "u8", "u64"}
+            [] OTHER -> ArrForms
+MaskF  == IF FormLevel = 0 THEN {"np"} ELSE MaskForms
+SliceF == IF FormLevel = 0 THEN {"py"} ELSE SliceForms
+ScalarF == IntF \ {"a0"}
+UsedForms(kind) == CASE kind = "int" -> IntF [] kind = "arr" -> ArrF [] kind = "mask" -> MaskF
+                     [] kind = "slice" -> SliceF [] OTHER -> {"py"}
+\* every index of X in every admissible NON-default form
+Alt(X) == {y \in UNION {{WithForm(x, f) : f \in UsedForms(x[1]) \ {DefaultForm(x[1])}} : x \in X} :
+             Dom_Form(y)}
+
+Sl(a, b, c) == <<"slice", <<a, b, c>>>>
+AltMask(n) == <<"mask", [i \in 1..n |-> i % 2 = 1]>>
+\* the values taken in every form: every kind, both ends, negative, empty, duplicate, out of range
+ZooInts(n) == {0, n - 1, -1, -n, n}
+Zoo(n) == IntIdx(ZooInts(n))
+          \cup {<<"arr", <<>>>>, <<"arr", <<n - 1, 0>>>>, <<"arr", <<-1>>>>, <<"arr", <<0, 0>>>>, <<"arr", <<n>>>>}
+          \cup MaskIdx(n)
+          \cup {Sl(<<1>>, <<>>, <<>>), Sl(<<>>, <<>>, <<-1>>), Sl(<<-2>>, <<>>, <<>>), Sl(<<-1>>, <<0>>, <<-1>>),
+                Sl(<<>>, <<2>>, <<2>>)}
+\* one index of every kind (default form) to stand in the other position of a 2-tuple
+Reps(n) == {<<"int", <<n - 1>>>>, <<"int", <<-1>>>>, Sl(<<1>>, <<>>, <<>>), AltMask(n), <<"arr", <<n - 1, 0>>>>,
+            <<"all", <<>>>>}
+\* both positions in a non-default form
+Diag(d, n) ==
+  {a \in UNION {{<<"2d", x0, x1>> : x0 \in {<<"int", <<d - 1>>, f>>, <<"arr", <<0>>, f>>},
+                                    x1 \in {<<"int", <<0>>, f>>, <<"arr", <<n - 1, 0>>, f>>}} :
+                  f \in IntF \cap ArrF} : Dom_Form(a[2]) /\ Dom_Form(a[3])}
+  \cup (IF FormLevel = 0 THEN {}
+        ELSE {<<"2d", <<"int", <<d - 1>>, "a0">>, <<"int", <<0>>, "a0">>>>,
+              <<"2d", <<"arr", <<0>>, "list">>, <<"arr", <<n - 1, 0>>, "list">>>>,
+              <<"2d", <<"mask", [i \in 1..d |-> TRUE], "list">>, WithForm(AltMask(n), "list")>>,
+              <<"2d", WithForm(Sl(<<>>, <<>>, <<-1>>), "np"), WithForm(Sl(<<1>>, <<>>, <<>>), "np")>>,
+              <<"2d", <<"int", <<0>>, "i64">>, WithForm(AltMask(n), "list")>>,
+              <<"2d", WithForm(Sl(<<>>, <<>>, <<-1>>), "np"), <<"int", <<-1>>, "i64">>>>})
+
 IndexArgs(kind, n, d) ==
   IF kind = "array"
-    THEN {<<"1d", x>> : x \in OneD(n)} \cup {<<"2d", <<"ell", <<>>>>, x>> : x \in AtomIdx2(n)}
-         \cup {<<"2d", <<"all", <<>>>>, <<"all", <<>>>>>>}
-    ELSE {<<"1d", x>> : x \in ModelIdx(d)}
-         \cup {<<"2d", x0, x1>> : x0 \in ModelIdx(d), x1 \in AtomIdx2(n)}
+    THEN {<<"1d", x>> : x \in Dflt(OneD(n)) \cup Alt(Zoo(n))}
+         \cup {<<"2d", <<"ell", <<>>, "py">>, x>> : x \in Dflt(AtomIdx2(n)) \cup Alt(Zoo(n))}
+         \cup {<<"2d", <<"all", <<>>, "py">>, <<"all", <<>>, "py">>>>}
+    ELSE {<<"1d", x>> : x \in Dflt(ModelIdx(d)) \cup Alt(Zoo(d))}
+         \cup {a \in {<<"2d", x0, x1>> : x0 \in Dflt(ModelIdx(d)), x1 \in Dflt(AtomIdx2(n))}
+                      \cup {<<"2d", x0, x1>> : x0 \in Alt(Zoo(d)), x1 \in Dflt(Reps(n))}
+                      \cup {<<"2d", x0, x1>> : x0 \in Dflt(Reps(d) \cup EllIdx), x1 \in Alt(Zoo(n))}
+                      \cup Diag(d, n) :
+                 \* Dom_Index for a stack of n atoms
+                 (a[3][1] = "int" /\ a[2][1] # "int") => InRange(a[3][2][1], n)}
+
+\* integer positions of deletion / assignment: every value as a Python int, the ZooInts in every
+\* other scalar form
+IntArgs(vals, zoo) ==
+  {<<i, "py">> : i \in vals}
+  \cup {x \in {<<i, f>> : i \in zoo \cap vals, f \in ScalarF \ {"py"}} : FitsForm(x[1], x[2])}
+FormPairs == {<<f, f>> : f \in ScalarF} \cup (IF FormLevel = 0 THEN {} ELSE {<<"i64", "py">>, <<"py", "i64">>})
+\* pairs of integer positions: every pair as Python ints, a few pairs in every combination of forms
+IntPairArgs(vi, vj, zi, zj) ==
+  {<<i, j, "py", "py">> : i \in vi, j \in vj}
+  \cup {x \in {<<i, j, fp[1], fp[2]>> : i \in zi \cap vi, j \in zj \cap vj, fp \in FormPairs} :
+          FitsForm(x[1], x[3]) /\ FitsForm(x[2], x[4])}
 
 OperandDescs == {<<0, FALSE, FALSE, {}>>, <<2, TRUE, FALSE, {}>>, <<2, FALSE, TRUE, {"flag"}>>,
                  <<1, TRUE, TRUE, {"b_factor", "flag", "label"}>>}
@@ -48,12 +107,17 @@ CallsFor(kind, n, d) ==
   \cup {<<"rconcat", x>> : x \in OperandDescs}
   \cup (IF kind = "array" THEN {<<"to_stack", <<k>>>> : k \in 1..2} ELSE {})
   \cup {<<"repeat", <<k>>>> : k \in 1..2}
-  \cup (IF kind = "array" THEN {<<"del_atom", <<i>>>> : i \in (-n-1)..n} ELSE {})
-  \cup (IF kind = "stack" THEN {<<"del_model", <<i>>>> : i \in (-d-1)..d} ELSE {})
-  \cup (IF kind = "array" THEN {<<"set_atom", <<i, 90, 7, 123456>>>> : i \in (-n-1)..n} ELSE {})
-  \cup (IF kind = "array" THEN {<<"swap_atoms", <<i, j>>>> : i \in (-n)..n, j \in 0..(n-1)}
-                                \cup {<<"take_then_overwrite", <<i, 91, 3, 654321>>>> : i \in (-n-1)..n} ELSE {})
-  \cup (IF kind = "stack" THEN {<<"set_model", <<i, j, 5>>>> : i \in (-d)..(d-1), j \in 0..(d-1)} ELSE {})
+  \cup (IF kind = "array" THEN {<<"del_atom", x>> : x \in IntArgs((-n-1)..n, ZooInts(n))} ELSE {})
+  \cup (IF kind = "stack" THEN {<<"del_model", x>> : x \in IntArgs((-d-1)..d, ZooInts(d))} ELSE {})
+  \cup (IF kind = "array"
+         THEN {<<"set_atom", <<x[1], 90, 7, 123456, x[2]>>>> : x \in IntArgs((-n-1)..n, ZooInts(n))}
+              \cup {<<"swap_atoms", x>> : x \in IntPairArgs((-n)..n, 0..(n-1), {-1, 0, n}, {0, n - 1})}
+              \cup {<<"take_then_overwrite", <<x[1], 91, 3, 654321, x[2]>>>> : x \in IntArgs((-n-1)..n, ZooInts(n))}
+         ELSE {})
+  \cup (IF kind = "stack"
+         THEN {<<"set_model", <<x[1], x[2], 5, x[3], x[4]>>>> :
+                 x \in IntPairArgs((-d)..(d-1), 0..(d-1), {-1, 0, d - 1}, {0, d - 1})}
+         ELSE {})
   \cup {<<"set_annot", <<[i \in 1..n |-> 40 - i]>>>>, <<"set_annot", <<[i \in 1..(n+1) |-> 5]>>>>}
   \cup {<<"add_extra", <<"flag">>>>, <<"add_extra", <<"label">>>>, <<"del_extra", <<"flag">>>>,
         <<"del_extra", <<"b_factor">>>>}
@@ -67,6 +131,9 @@ AllCalls ==
   {<<"any", 0, 0, "new", s>> : s \in Seeds}
   \cup UNION {{<<kind, n, d, c[1], c[2]>> : c \in CallsFor(kind, n, d)} :
                 kind \in {"array", "stack"}, n \in 0..MaxN, d \in 1..MaxD}
+
+\* every generated call is in the form domain
+ASSUME \A c \in AllCalls : Dom_Call(c[4], c[5])
 
 \* the property's domain: self-bonds excluded (as in C02); set_bonds rows must join distinct atoms
 InDomain(c) ==
@@ -82,6 +149,7 @@ Call(c) ==
   /\ \/ (c[1] = "any" /\ S = Empty)          \* objects are built at the start of a behaviour
      \/ (c[1] = S.kind /\ c[2] = N(S) /\ c[3] = D(S))
   /\ InDomain(c)
+  /\ (c[4] = "index" => Dom_Index(S, c[5]))
   /\ LET r == Apply(S, c[4], c[5]) IN
      /\ N(r.st) <= MaxN /\ D(r.st) <= MaxD
      /\ S' = r.st /\ oc' = r.oc /\ out' = r.out /\ op' = c[4]
